@@ -343,11 +343,25 @@ class OggPage(object):
         page = OggPage()
         page.sequence = sequence
 
+        def lacings(packets, extra=0):
+            # number of lacing values needed, with `extra` bytes added to
+            # the last packet; a page can hold at most 255 of them
+            if not packets:
+                return 0
+            count = sum(len(p) // 255 + 1 for p in packets[:-1])
+            return count + (len(packets[-1]) + extra) // 255 + 1
+
         for packet in packets:
+            if lacings(page.packets) >= 255:
+                # no lacing value left to start another packet on this page
+                pages.append(page)
+                page = OggPage()
+                page.sequence = pages[-1].sequence + 1
             page.packets.append(b"")
             while packet:
                 data, packet = packet[:chunk_size], packet[chunk_size:]
-                if page.size < default_size and len(page.packets) < 255:
+                if page.size < default_size and \
+                        lacings(page.packets, len(data)) <= 255:
                     page.packets[-1] += data
                 else:
                     # If we've put any packet data into this page yet,
@@ -367,7 +381,8 @@ class OggPage(object):
                     page.sequence = pages[-1].sequence + 1
                     page.packets.append(data)
 
-                if len(packet) < wiggle_room:
+                if len(packet) < wiggle_room and \
+                        lacings(page.packets, len(packet)) <= 255:
                     page.packets[-1] += packet
                     packet = b""
 
